@@ -32,9 +32,7 @@ mutual
     | .node m its, hok => by
       rw [okSub_node] at hok
       unfold Tree.seal
-      split
-      · rw [okSub_node]; exact hok
-      · rw [okSub_node]; exact ⟨hok.1, sealItems_ok s m.id p its hok.2⟩
+      rw [okSub_node]; exact ⟨hok.1, sealItems_ok s m.id p its hok.2⟩
   theorem sealItems_ok (s : Bool) (h : Nat) (p : List Key) : (its : Items) → okItems h p its = true →
       okItems h p (sealItems s its) = true
     | [], _ => by simp [sealItems, okItems]
@@ -52,9 +50,14 @@ theorem seal_okAt (s : Bool) (par : Option Nat) (p : List Key) (t : Tree) (h : t
   | node m its =>
     rw [okAt_node] at h
     unfold Tree.seal
-    split
-    · rw [okAt_node]; exact h
-    · rw [okAt_node]; exact ⟨h.1, sealItems_ok s m.id p its h.2⟩
+    rw [okAt_node]; exact ⟨h.1, sealItems_ok s m.id p its h.2⟩
+
+theorem sealIf_okAt (b : Bool) (par : Option Nat) (p : List Key) (t : Tree) (h : t.okAt par p = true) :
+    (sealIf b t).okAt par p = true := by
+  unfold sealIf
+  split
+  · exact seal_okAt true par p t h
+  · exact h
 
 /-! ### the clone is a well-formed tree at its destination -/
 
@@ -66,7 +69,7 @@ mutual
     | .node m its => by
       unfold Tree.clone
       simp only
-      apply seal_okAt
+      apply sealIf_okAt
       rw [okAt_node]
       refine ⟨⟨rfl, rfl⟩, ?_⟩
       have ih := cloneItems_ok cfg deep (next + 1) next p its
@@ -99,13 +102,17 @@ mutual
     | .leaf _ => by simp [Tree.seal]
     | .node m its => by
       unfold Tree.seal
-      split
-      · rfl
-      · simp [Tree.ids, sealItems_ids s its]
+      simp [Tree.ids, sealItems_ids s its]
   theorem sealItems_ids (s : Bool) : (its : Items) → idsItems (sealItems s its) = idsItems its
     | [] => by simp [sealItems]
     | (k, c) :: r => by simp [sealItems, idsItems, seal_ids s c, sealItems_ids s r]
 end
+
+theorem sealIf_ids (b : Bool) (t : Tree) : (sealIf b t).ids = t.ids := by
+  unfold sealIf
+  split
+  · exact seal_ids true t
+  · rfl
 
 mutual
   theorem setPath_ids (p : List Key) : (t : Tree) → (t.setPath p).ids = t.ids
@@ -149,7 +156,7 @@ mutual
       have ih := cloneItems_fresh cfg deep (next + 1) next p its
       unfold Tree.clone
       simp only
-      rw [seal_ids]
+      rw [sealIf_ids]
       have fin : ∀ (its' : Items), idsItems its' = idsItems (cloneItems cfg deep (next + 1) next p its).1 →
           next ≤ (cloneItems cfg deep (next + 1) next p its).2 ∧
           ∀ i ∈ next :: idsItems its', next ≤ i ∧ i < (cloneItems cfg deep (next + 1) next p its).2 := by
